@@ -22,15 +22,18 @@ def toWire (ty : Ty) : Val → Bytes
 def lengthWord (n : Nat) : Bytes :=
   be ((dtypeItemsize Gen.DAP2_ARRAY_LENGTH_NUMPY_TYPE).getD 0) n
 
+/-- a string on the wire: `length ‖ bytes ‖ (-length % 4) * b"\0"` -/
+def strField : Val → Bytes
+  | .str b => lengthWord b.length ++ b ++ zeros (pad4 b.length)
+  | .num _ => []
+
 /-- the three branches of `_basetype` after the length header: ubyte (packed, padded at the end),
     strings (length ‖ bytes ‖ pad per word), regular data -/
 def encElems (ty : Ty) (vs : List Val) : Bytes :=
   if wireStr ty = "B" then
     (vs.map (toWire ty)).flatten ++ zeros (pad4 vs.length)
   else if wireChar ty = 'S' then
-    (vs.map fun w => match w with
-      | .str b => lengthWord b.length ++ b ++ zeros (pad4 b.length)
-      | .num _ => []).flatten
+    (vs.map strField).flatten
   else
     (vs.map (toWire ty)).flatten
 
@@ -51,11 +54,7 @@ def flatCols : List Tmpl → Bool
 
 /-- one field of the composite record dtype: `>i,|S{padded}` for strings, the wire dtype otherwise -/
 def flatField (ty : Ty) (v : Val) : Bytes :=
-  if wireChar ty = 'S' then
-    match v with
-    | .str b => lengthWord b.length ++ b ++ zeros (pad4 b.length)
-    | .num _ => []
-  else toWire ty v
+  if wireChar ty = 'S' then strField v else toWire ty v
 
 def flatRecord : List Tmpl → List Data → Bytes
   | .base ty _ :: cs, .scalar v :: ds => flatField ty v ++ flatRecord cs ds
